@@ -13,6 +13,21 @@ CHECKS = {
  'C02': ('input-sweep', 'bounded-exhaustive input enumeration, differential against an independent executable restatement of the wire policy (both directions)',
          'Every enumerated input is classified by an independently written recogniser of the stated policy and by the real parser; any disagreement in either direction is a violation. Per-clause coverage is measured and a clause that is never the first failing one fails the run.',
          'the restated policy (refmodel::wire::wf) is trusted as the specification; error kinds are not compared', '§2.1, §5 C02'),
+ 'C03': ('input-sweep', 'bounded-exhaustive enumeration of accepted packets (message universe x encoding strategies + accepted low-level packets), every iterator and accessor compared with an independent RFC 1035 decoder',
+         'All messages of a bounded universe under every compression layout are walked with every iterator of the real library and each accessor is compared with the reference decoding; completeness (count, order, OPT skipped/included) and byte-immutability are checked on every packet.',
+         'reference decoder trusted; universe bounds in the evidence', '§5 C03'),
+ 'C04': ('input-sweep', 'exhaustive enumeration of all 65536 header flag words, all 65536 extended-flag words and OPT field grids on base packets, getters compared with values decoded from the bytes',
+         'Every flag word and every EDNS extended-flag word is explored on several base packets (including question names that run through the header), cold and memoised getter paths both compared with the reference decode.',
+         'reference decoder trusted', '§5 C04'),
+ 'C05': ('input-sweep', 'bounded-exhaustive enumeration of accepted packets x every record boundary, decompression compared with the reference decoder (message equality, pointer-freeness, idempotence, offset carry)',
+         'Every packet of the bounded universe under every pointer layout (chains up to 16, pointers into rdata, expansion beyond 64 KiB) is decompressed by the real code and the result is decoded independently.',
+         'reference decoder and policy trusted', '§5 C05'),
+ 'C06': ('input-sweep', 'bounded-exhaustive enumeration of pointer-free accepted packets plus boundary families (nesting 1..20, dictionary wrap, suffix length, offset 16383), compression compared with the reference decoder',
+         'Every pointer-free message of the bounded universe and of the dictionary/offset boundary families is compressed by the real code; validity, size, message equality up to case and round trip are checked on each.',
+         'which suffix gets compressed is not compared; reference decoder trusted', '§5 C06'),
+ 'C07': ('input-sweep', 'bounded-exhaustive enumeration of accepted packets x (target, source, mode) menus, renamer output compared with an abstract rename on the decoded message',
+         'Every packet of the bounded universe is renamed with every pair of a source/target menu (matches at each label depth, near-misses, case variants, growth past 255) in both modes through both entry points; output must decode to the abstractly renamed message or fail exactly when a name overflows.',
+         'OPT position inside the additional section after renaming is not constrained; reference decoder trusted', '§5 C07'),
 }
 
 def entry(pid):
